@@ -292,6 +292,7 @@ bool handle_ok( const World& w, const std::string& op, const std::vector<std::st
 }
 
 using Tokens = std::vector<std::string>;
+std::vector<std::unique_ptr<std::istringstream>> g_kept_streams;
 bool exec_one( std::map<uint64_t, World>& worlds, uint64_t& cur, const Tokens& t, FILE* out );
 
 std::string u64s( uint64_t v ) { return std::to_string( v ); }
@@ -423,6 +424,52 @@ bool exec_one( std::map<uint64_t, World>& worlds, uint64_t& cur, const Tokens& t
         if ( op == "obj" ) {
             cur = num( t[1] );
             put_n( out, 120, { cur } );
+            return true;
+        }
+        if ( op == "movector" ) {
+            uint64_t d = num( t[1] ), sr = num( t[2] );
+            if ( !worlds.count( sr ) || !worlds[sr].el ) {
+                fprintf( out, "harness-error no-object\n" );
+                return false;
+            }
+            World& ws = worlds[sr];
+            World  nw;
+            nw.el.reset( new elfio( std::move( *ws.el ) ) );
+            nw.in_stream = std::move( ws.in_stream );   // the user's stream object itself stays alive
+            worlds[d]    = std::move( nw );
+            return true;
+        }
+        if ( op == "moveassign" ) {
+            uint64_t d = num( t[1] ), sr = num( t[2] );
+            if ( !worlds.count( sr ) || !worlds[sr].el || !worlds.count( d ) || !worlds[d].el ) {
+                fprintf( out, "harness-error no-object\n" );
+                return false;
+            }
+            if ( d != sr ) {
+                // accessors held on the destination refer to sections that are about to go away
+                World& wd = worlds[d];
+                wd.dyn.clear(); wd.note_sec.clear(); wd.note_seg.clear(); wd.mod.clear(); wd.vs.clear(); wd.vn.clear(); wd.vd.clear();
+                *wd.el = std::move( *worlds[sr].el );
+                if ( worlds[sr].in_stream )
+                    wd.in_stream = std::move( worlds[sr].in_stream );
+            }
+            return true;
+        }
+        if ( op == "destroy" ) {
+            uint64_t k = num( t[1] );
+            if ( k == cur ) {
+                fprintf( out, "harness-error destroy-current\n" );
+                return false;
+            }
+            // the user's own std::istringstream (if any) outlives the object, as in a real program
+            if ( worlds.count( k ) ) {
+                World& wk = worlds[k];
+                wk.dyn.clear(); wk.note_sec.clear(); wk.note_seg.clear(); wk.mod.clear(); wk.vs.clear(); wk.vn.clear(); wk.vd.clear();
+                wk.el.reset();
+                if ( wk.in_stream )
+                    g_kept_streams.push_back( std::move( wk.in_stream ) );
+                worlds.erase( k );
+            }
             return true;
         }
         World& w = worlds[cur];
